@@ -21,6 +21,14 @@ import core
 PID = "C05"
 
 
+GRIDS = {"u": list(range(-6, 7)), "a": [-6, -4, -2, 0, 2, 4, 6], "b": [-6, -5, -1, 0, 1, 5, 6], "c": [-6, -3, -2, 0, 2, 3, 6]}
+
+
+def shared_f(t, w, a, b):
+    """one python function shared by several operator-function leaves (their arguments differ)"""
+    return a + (w * t) * b
+
+
 def rnd_m(rng, small=True):
     hi = 3 if small else 5
     return [int(x) for x in rng.integers(-hi + 1, hi, size=8)]
@@ -37,8 +45,18 @@ def gen_tree(rng, depth, tier):
             c = [[int(a), int(b)] for a, b in rng.integers(-2, 3, size=(deg + 1, 2))]
             if style == "array0" or style == "array1":
                 c = c[:2]
-            return {"k": "evo", "m": rnd_m(rng), "c": c, "style": style}
-        return {"k": "func", "a": rnd_m(rng), "b": rnd_m(rng), "style": str(rng.choice(["plain", "args"]))}
+            return {"k": "evo", "m": rnd_m(rng), "c": c, "style": style,
+                    "grid": "u" if style == "array0" else str(rng.choice(["u", "a", "b", "c"]))}
+        return {"k": "func", "a": rnd_m(rng), "b": rnd_m(rng), "style": str(rng.choice(["plain", "args", "shared", "shared"]))}
+    if rng.random() < 0.12:
+        # several terms on the same operator (merged by compress), sampled on different grids
+        m = rnd_m(rng)
+        terms = [{"k": "evo", "m": m, "c": [[int(a), int(b)] for a, b in rng.integers(-2, 3, size=(2, 2))],
+                  "style": "array1", "grid": str(rng.choice(["a", "b", "c", "a", "b", "u"]))} for _ in range(int(rng.integers(2, 4)))]
+        node = terms[0]
+        for tt in terms[1:]:
+            node = {"k": "add", "x": node, "y": tt}
+        return {"k": "id", "how": "compress", "x": node}
     k = str(rng.choice(["add", "sub", "mul", "mul", "neg", "smul", "smul", "tr", "tr", "tr", "id", "cmul"]))
     if k in ("add", "sub", "mul"):
         return {"k": k, "x": gen_tree(rng, depth - 1, tier), "y": gen_tree(rng, depth - 1, tier)}
@@ -111,7 +129,7 @@ def build_real(node):
         if st == "str":
             expr = " + ".join(f"({a}+{b}j)*t**{k}" for k, (a, b) in enumerate(c))
             return qutip.QobjEvo([[q, expr]])
-        tl = np.arange(-6, 7).astype(float)
+        tl = np.array(GRIDS[node.get("grid", "u")], dtype=float)
         if st == "array1":
             cc = (c + [[0, 0]])[:2]
             vals = np.array([poly(cc, t) for t in tl])
@@ -125,6 +143,8 @@ def build_real(node):
         a, b = qutip.Qobj(mat(node["a"])), qutip.Qobj(mat(node["b"]))
         if node["style"] == "args":
             return qutip.QobjEvo(lambda t, w, a=a, b=b: a + (w * t) * b, args={"w": 1})
+        if node["style"] == "shared":
+            return qutip.QobjEvo(shared_f, args={"w": 1, "a": a, "b": b})
         return qutip.QobjEvo(lambda t, a=a, b=b: a + t * b)
     if k in ("add", "sub", "mul"):
         x, y = build_real(node["x"]), build_real(node["y"])
@@ -169,7 +189,7 @@ def build_real(node):
         if how == "to_csr":
             return x.to("csr")
         if how == "args":
-            return x(0.0, w=1) * 0 + x if False else qutip.QobjEvo(x, args={"w": 1})
+            return qutip.QobjEvo(x, args={"w": 1})      # argument replacement with the value in force
         return x.linear_map(lambda q: q)
     raise KeyError(k)
 
@@ -223,6 +243,18 @@ def run_real(case):
         V = v.full()
         vals.append(as8(V))
         if isinstance(obj, qutip.QobjEvo):
+            # argument replacement (call-time, in-place on a copy, at construction) with the value in force
+            alt = {"call-args": lambda: obj(float(t), w=1), "call-args-dict": lambda: obj(float(t), {"w": 1})}
+
+            def _inplace():
+                y = obj.copy()
+                y.arguments(w=1)
+                return y(float(t))
+            alt["arguments()"] = _inplace
+            for nm, fn in alt.items():
+                got = fn().full()
+                if np.abs(got - V).max() > 1e-9 * (1 + np.abs(V).max()):
+                    extra.append(("args-" + nm, f"evaluating at t={t} with the arguments in force given again ({nm}) changes the value"))
             for fmt in ("dense", "csr"):
                 st = qutip.Qobj(psi).to(fmt)
                 got = obj.matmul(float(t), st).full()
